@@ -87,6 +87,21 @@ LfOnly(b) ==
   \cup { [req |-> b.req, op |-> "lf-only", site |-> 0, segs |-> s] }
   \cup { [req |-> b.req, op |-> "lf-delete", site |-> i, segs |-> RemoveAtIdx(s, i)] : i \in { j \in Idx(s) : s[j].t = "blank" } }
 
+\* framing fields whose value is empty, a bare list separator, padded or signed: a head like any other to the parser, an odd one to
+\* whoever decides the framing from it
+OddFramingValues == {"", ",", ", ,", " ", "chunked,", ",chunked", ", chunked", "chunked, ", "chunked,,", "gzip,", ",,", ";", "chunked;q=1"}
+OddLengthValues == {"", ",", "5,", ",5", "5, 5", "+5", "-0", " 5 ", "5 ", "0x5", "5;", "05", "5.0", "5<HI>"}
+OddFraming ==
+  { [req |-> r, op |-> "odd-transfer-encoding", site |-> 0,
+     segs |-> <<St("1.1", c, "OK"), Fd("Transfer-Encoding", v), Bl, Sz("3", ""), Dt(3), Cr, Sz("0", ""), Bl>>]
+    : v \in OddFramingValues, r \in {"get", "head", "post-expect"}, c \in {"200", "302"} } \cup
+  { [req |-> r, op |-> "odd-content-length", site |-> 0,
+     segs |-> <<St("1.1", "200", "OK"), Fd("Content-Length", v), Bl, Dt(5)>>]
+    : v \in OddLengthValues, r \in {"get", "head"} } \cup
+  { [req |-> "get", op |-> "odd-framing-pair", site |-> 0,
+     segs |-> <<St("1.1", "200", "OK"), Fd("Transfer-Encoding", v), Fd("Content-Length", w), Bl, Dt(5)>>]
+    : v \in {"", ",", "chunked,"}, w \in {"", "5", "5, 5"} }
+
 \* many interim responses before the final one
 ManyInterim ==
   { [req |-> r, op |-> "many-interim", site |-> n,
@@ -123,7 +138,7 @@ OddRedirects ==
                 St("1.1", "307", "Again"), Fd("Location", "/next"), Fd("Content-Length", "0"), Bl,
                 St("1.1", "200", "OK"), Fd("Content-Length", "0"), Bl>>] : loc \in OddLocations, r \in {"get", "head"} }
 
-All == OddRedirects \cup ManyInterim \cup UNION { LfOnly(Bases[k]) : k \in Idx(Bases) } \cup UNION { Mutations(Bases[k]) : k \in Idx(Bases) } \cup Splices \cup Extremes \cup { [req |-> Bases[k].req, op |-> "none", site |-> 0, segs |-> Bases[k].segs] : k \in Idx(Bases) }
+All == OddRedirects \cup OddFraming \cup ManyInterim \cup UNION { LfOnly(Bases[k]) : k \in Idx(Bases) } \cup UNION { Mutations(Bases[k]) : k \in Idx(Bases) } \cup Splices \cup Extremes \cup { [req |-> Bases[k].req, op |-> "none", site |-> 0, segs |-> Bases[k].segs] : k \in Idx(Bases) }
 
 Table == SetToSeq(All)
 
